@@ -102,7 +102,7 @@ void QXmppResultSetQuery::setAfter(const QString &after)
 /// Returns true if no result set information is present.
 bool QXmppResultSetQuery::isNull() const
 {
-    return m_max == -1 && m_index == -1 && m_after.isNull() && m_before.isNull();
+    return m_max < 0 && m_index < 0 && m_after.isNull() && m_before.isNull();
 }
 
 /// \cond
@@ -223,7 +223,7 @@ void QXmppResultSetReply::setIndex(int index)
 /// Returns true if no result set information is present.
 bool QXmppResultSetReply::isNull() const
 {
-    return m_count == -1 && m_index == -1 && m_first.isNull() && m_last.isNull();
+    return m_count < 0 && m_index < 0 && m_first.isNull() && m_last.isNull();
 }
 
 /// \cond
@@ -231,10 +231,13 @@ void QXmppResultSetReply::parse(const QDomElement &element)
 {
     QDomElement setElement = (element.tagName() == u"set") ? element : firstChildElement(element, u"set");
     if (setElement.namespaceURI() == ns_rsm) {
-        m_count = firstChildElement(setElement, u"count").text().toInt();
+        bool ok = false;
+        m_count = firstChildElement(setElement, u"count").text().toInt(&ok);
+        if (!ok) {
+            m_count = -1;
+        }
         QDomElement firstElem = firstChildElement(setElement, u"first");
         m_first = firstElem.text();
-        bool ok = false;
         m_index = firstElem.attribute(u"index"_s).toInt(&ok);
         if (!ok) {
             m_index = -1;
